@@ -21,7 +21,7 @@
    named at the theorems; time tags: C10_timetag_... (model, calendar, fraction). *)
 From Coq Require Import List ZArith.
 From RtoscV Require Import Pretty.Tok Pretty.FloatFmt Pretty.PrintModel Pretty.ScanModel
-  Pretty.PrettyProofs Pretty.FloatProofs Pretty.SymBlobProofs Pretty.RangeProofs Pretty.RunProofs Pretty.ListProofs Pretty.ArrayProofs Pretty.MixedProofs Pretty.MixedPrint Pretty.TotalProofs Pretty.TimeFmt Pretty.TimeProofs Pretty.TimeTokProofs Pretty.TimeSkipProofs Pretty.TimeFracProofs Pretty.TimeFracSkipProofs Pretty.TimeTokofProofs Pretty.PrettyRegress.
+  Pretty.PrettyProofs Pretty.FloatProofs Pretty.SymBlobProofs Pretty.RangeProofs Pretty.RunProofs Pretty.ListProofs Pretty.ArrayProofs Pretty.MixedProofs Pretty.MixedPrint Pretty.TotalProofs Pretty.TimeFmt Pretty.TimeProofs Pretty.TimeTokProofs Pretty.TimeSkipProofs Pretty.TimeFracProofs Pretty.TimeFracSkipProofs Pretty.TimeTokofProofs Pretty.TimeListProofs Pretty.PrettyRegress.
 Import ListNotations.
 Local Open Scope Z_scope.
 
@@ -344,9 +344,12 @@ Proof. exact float_list_example. Qed.
      C10_timetag_tokof_fraction; C10_timetag_tokof_immediately), and a text of such tokens and the other proved
      tokens, with any white space between them, is counted and scanned back
      (C10_linebreak_transparent; C10_timetag_in_list).
+   - printer to scanner: C10_roundtrip_timetags_partial, C10_message_timetags_partial
+     (lists and messages of the proved scalar values and such time tags, compression
+     off: returned length, count, whole text consumed, the values back).
    NOT proved: a date standing alone (midnight) as a token of `lang` (it is one only
    where no "hh:mm" follows: the side condition of C10_timetag_token_whole_seconds);
-   time tags inside the printer-side list theorems (good_val has no VTm case: tied);
+   time tags in the theorems with compression on / arrays (goodv has no VTm case: tied);
    a fraction without the lossless option (the decimal digits are not exact). *)
 Theorem C10_timetag_calendar : forall s, 0 <= s < 2 ^ 32 ->
   let '(y, mo, d, h, mi, se) := date_of_secs s in
@@ -419,6 +422,33 @@ Theorem C10_timetag_in_list : forall (dec2f dec2d : list Z -> Z),
   lang dec2f dec2d [VI 1; VTm ex_t1; VTm ex_t2; VT]
        ([49] ++ nl4 ++ print_timetag ex_o ex_t1 ++ [9] ++ print_timetag ex_o ex_t2 ++ [32] ++ kw_true).
 Proof. exact timetag_in_list. Qed.
+
+(* LISTS AND MESSAGES WITH TIME TAGS, printer to scanner (compression off): the
+   proved scalar values and time tags that are "immediately", whole seconds with
+   a clock time other than 00:00:00, or - lossless option - have a fraction that
+   fits a float.  Partial: a date standing alone (midnight) is not in the class
+   (it is a token only where no "hh:mm" follows), compression is off. *)
+Theorem C10_roundtrip_timetags_partial : forall (dec2f dec2d : list Z -> Z) o vs text w,
+  compress o = false ->
+  Forall (good_val_tt o) vs -> print_arg_vals o vs 0 = Some (text, w) ->
+  w = len text /\
+  count_printed_arg_vals dec2f dec2d text = Ok (true, Z.of_nat (length vs)) /\
+  scan_arg_vals dec2f dec2d text (Z.of_nat (length vs)) = Ok (vs, []).
+Proof. exact roundtrip_with_timetags. Qed.
+
+Theorem C10_message_timetags_partial : forall (dec2f dec2d : list Z -> Z) o addr vs text w,
+  compress o = false -> good_addr addr -> Forall (good_val_tt o) vs ->
+  print_message o addr vs 0 = Some (text, w) ->
+  w = len text /\
+  count_printed_arg_vals_of_msg dec2f dec2d text = Ok (true, Z.of_nat (length vs)) /\
+  scan_message dec2f dec2d text (Z.of_nat (length vs)) = Ok (addr, vs, []).
+Proof. exact message_roundtrip_with_timetags. Qed.
+
+(* 1, 2016-11-14 17:26, 2016-11-14 17:26:30.375, immediately, true, "a b": in the
+   class, and the printer answers *)
+Theorem C10_timetags_nonvacuous :
+  Forall (good_val_tt ex_o) ex_tt_list /\ exists text w, print_arg_vals ex_o ex_tt_list 0 = Some (text, w).
+Proof. exact (conj ex_tt_list_good ex_tt_list_prints). Qed.
 
 (* immediately, 2016-11-14, 2016-11-14 17:26, 2016-11-14 17:26:30,
    2016-11-14 17:26:30.50 (...+0x1p-1s), 2106-02-07 06:28:15.00 (...+0x1.8p-23s), 12 *)
